@@ -153,24 +153,73 @@ theorem rejected_never_stored (cfg : Cfg) (script : Nat → Beh) (ops : List Sim
     cases hk : (script n).kind <;> cases hk' : (script n').kind <;>
       simp [hk, hk', Kind.res, Res.isExc] at heq hst <;> omega
 
+/-- **A replayed failure is the very exception that was raised.**  In every reachable state, when a call
+with key `k` is answered from the store with an exception of class `c`, payload `p` and stamp `m`, then `m`
+is a logged execution with the same key whose script entry *is* "raise class `c` with payload `p`": the class,
+the payload (constructor family and arguments, message, attributes, cause - everything the instance carries)
+and the stamp of what the caller receives are those of what that execution raised; nothing is re-made from
+the class or from a part of the payload.  That execution was selected by the condition and is younger than
+its ttl.  (The payload is opaque to the model: `Res.enc` / `Res.dec` carry it unchanged, the library's
+conditions do not look at it.) -/
+theorem replayed_exception_is_the_raised_one (cfg : Cfg) (script : Nat → Beh) (ops : List Simple.Op) (k c p m : Nat)
+    (h : (step cfg script (after cfg script ops) (.call k)).2 = .got (.exc c p m) true) :
+    ∃ x, (after cfg script ops).execs[m]? = some x ∧ x.key = k ∧ x.beh = script m ∧
+      (script m).kind = .exc c p ∧ x.res = .exc c p m ∧ accepts cfg.cond x.beh = true ∧
+      x.at_ ≤ (after cfg script ops).store.now ∧
+      (cfg.ttl k (.exc c p m) = 0 ∨ (after cfg script ops).store.now < x.at_ + cfg.ttl k (.exc c p m)) ∧
+      (step cfg script (after cfg script ops) (.call k)).1 = after cfg script ops := by
+  have inv : Inv cfg script (after cfg script ops) := inv_run (inv_init cfg script) ops
+  generalize after cfg script ops = s at h inv ⊢
+  cases hf : s.store.find k with
+  | none =>
+    rw [step_call_miss cfg script s k hf] at h
+    simp at h
+  | some e =>
+    rw [step_call_hit cfg script s k e hf] at h ⊢
+    simp only [Simple.Out.got.injEq, and_true] at h
+    obtain ⟨hm, hl⟩ := find_eq_some.mp hf
+    obtain ⟨x, hx, hk, ha, he⟩ := inv.stored k e hm
+    obtain ⟨n, hn⟩ := List.getElem?_of_mem hx
+    obtain ⟨hb, hr⟩ := inv.stamped n x hn
+    have hres : x.res = .exc c p m := by rw [← h, he]; exact (Res.dec_enc _).symm
+    have hfr : Fresh cfg x s.store.now := (live_entryOf_iff cfg x _).mp (he ▸ hl)
+    -- the stamp of a raised exception is the number of the execution that raised it
+    have hkind : (script n).kind = .exc c p ∧ n = m := by
+      rw [hr] at hres
+      cases hkd : (script n).kind <;> simp [hkd, Kind.res] at hres
+      exact ⟨by rw [hres.1, hres.2.1], hres.2.2⟩
+    obtain ⟨hkd, rfl⟩ := hkind
+    refine ⟨x, hn, hk, hb, hkd, hres, ha, inv.past x hx, ?_, rfl⟩
+    unfold Fresh at hfr
+    rw [hk, hres] at hfr
+    exact hfr
+
+/-- two exception answers are the same exception only if class, payload and stamp all agree -/
+example : Res.exc 1 3 2 ≠ Res.exc 1 0 2 ∧ Res.dec (Res.enc (.exc 1 3 2)) = .exc 1 3 2 := by decide
+
 /-! ### Non-vacuity (simple cache): the model provably does something, and the hypotheses are satisfiable -/
 
-/-- executions 0.. : payload, `None`, exception of class 1, payload, payload (each taking 1 tick) -/
+/-- executions 0.. : payload, `None`, exception of class 1 with payload 3, payload, payload (each taking 1 tick) -/
 def sampleScript : Nat → Beh
-  | 0 => ⟨.val, 1⟩ | 1 => ⟨.none, 1⟩ | 2 => ⟨.exc 1, 1⟩ | _ => ⟨.val, 1⟩
+  | 0 => ⟨.val, 1⟩ | 1 => ⟨.none, 1⟩ | 2 => ⟨.exc 1 3, 1⟩ | _ => ⟨.val, 1⟩
 
 /-- not-none condition, ttl 8 ticks: hit within ttl, re-execution at the deadline, a rejected `None`
 (executed again on the next call), a second key -/
 example : (run ⟨.notNone, fun _ _ => 8⟩ sampleScript St.init
       [.call 0, .adv 6, .call 0, .adv 2, .call 0, .call 0, .call 1, .call 1]).2 =
     [.got (.val 0 0) false, .unit, .got (.val 0 0) true, .unit, .got .none false,
-     .got (.exc 1 2) false, .got (.val 3 0) false, .got (.val 3 0) true] := by decide
+     .got (.exc 1 3 2) false, .got (.val 3 0) false, .got (.val 3 0) true] := by decide
 
 /-- `with_exceptions(1)`: the selected exception is replayed from the store, `None` is stored too -/
 example : (run ⟨.withExc [1], fun _ _ => 8⟩ sampleScript St.init
       [.call 0, .adv 8, .call 0, .call 0, .adv 8, .call 0, .call 0]).2 =
     [.got (.val 0 0) false, .unit, .got .none false, .got .none true, .unit,
-     .got (.exc 1 2) false, .got (.exc 1 2) true] := by decide
+     .got (.exc 1 3 2) false, .got (.exc 1 3 2) true] := by decide
+
+/-- the hypothesis of `replayed_exception_is_the_raised_one` is satisfiable (same history: the last call) -/
+example : (step ⟨.withExc [1], fun _ _ => 8⟩ sampleScript
+      (after ⟨.withExc [1], fun _ _ => 8⟩ sampleScript [.call 0, .adv 8, .call 0, .call 0, .adv 8, .call 0]) (.call 0)).2 =
+    .got (.exc 1 3 2) true := by decide
 
 /-- a callable returning a truthy non-bool stores nothing; a time condition stores only slow executions -/
 example : (run ⟨.fn (fun _ => .other true), fun _ _ => 8⟩ sampleScript St.init [.call 0, .call 0]).2 =
@@ -289,6 +338,22 @@ theorem iterator_executes_iff_no_cached_run (cfg : Iter.Cfg) (script : Nat → I
     rw [step_iter_hit cfg script s k hc]
     exact ⟨fun h => absurd hyes h, fun _ => ⟨rfl, _, rfl⟩⟩
 
+/-- **The failure at the end of a replayed run is the very exception that run raised.**  In every reachable
+state, when a call with key `k` is answered from the cache and its consumer meets an exception of class `c`,
+payload `p` and stamp `m` at position `j`, then `m` is a logged run with the same key, the exception is the
+last thing the replay delivers, and the body of run `m` is `pre ++ (raise class c payload p) :: _` with `j`
+items in `pre`, none of them a raise: class, payload and stamp are those of what that run raised. -/
+theorem iterator_replayed_exception_is_the_raised_one (cfg : Iter.Cfg) (script : Nat → IBeh) (ops : List Iter.Op)
+    (k : Nat) (rs : List Res) (h : (Iter.step cfg script (afterI cfg script ops) (.iter k)).2 = .got rs true)
+    (j c p m : Nat) (hj : rs[j]? = some (.exc c p m)) :
+    ∃ r, (afterI cfg script ops).runs[m]? = some r ∧ r.key = k ∧ rs = r.outs ∧ j + 1 = rs.length ∧
+      ∃ pre d rest, (script m).steps = pre ++ (.exc c p, d) :: rest ∧ pre.length = j ∧
+        ∀ st ∈ pre, ∀ c' p', st.1 ≠ .exc c' p' := by
+  obtain ⟨n, r, hn, hk, hrs, hprod, _, _, _, _⟩ := iterator_replays_one_complete_run cfg script ops k rs h
+  rw [hprod] at hj
+  obtain ⟨rfl, hlen, pre, d, rest, hsteps, hpl, hpre⟩ := produced_exc_at n (script n).steps 0 j c p m hj
+  exact ⟨r, hn, hk, hrs, by rw [hprod]; exact hlen, pre, d, rest, hsteps, hpl, hpre⟩
+
 /-! ### Non-vacuity (iterator) -/
 
 /-- run 0: three items, the last one 4 ticks late; run 1: two items, `0` (falsy) first; run 2: `None` in the middle -/
@@ -296,7 +361,7 @@ def sampleRuns : Nat → IBeh
   | 0 => ⟨[(.val, 0), (.val, 0), (.val, 4)], 0⟩
   | 1 => ⟨[(.falsy 0, 0), (.val, 0)], 0⟩
   | 2 => ⟨[(.val, 0), (.none, 0), (.val, 0)], 0⟩
-  | _ => ⟨[(.val, 0), (.exc 1, 0)], 0⟩
+  | _ => ⟨[(.val, 0), (.exc 1 2, 0)], 0⟩
 
 /-- D16 + D17: a shorter run after a longer one whose last chunk is still alive is replayed alone, in full,
 falsy first item included (ttl 8 ticks; the marker of run 0 dies at 8, its third chunk lives until 12) -/
@@ -307,15 +372,21 @@ example : (Iter.run ⟨.all, fun _ => 8⟩ sampleRuns Iter.St.init [.iter 0, .it
 /-- D18: a run with an item the condition rejects is not cached (it is run again) -/
 example : (Iter.run ⟨.notNone, fun _ => 8⟩ sampleRuns Iter.St.init [.iter 0, .adv 8, .iter 0, .adv 8, .iter 0, .iter 0]).2 =
     [.got [.val 0 0, .val 0 1, .val 0 2] false, .unit, .got [.falsy 0, .val 1 1] false, .unit,
-     .got [.val 2 0, .none, .val 2 2] false, .got [.val 3 0, .exc 1 3] false] := by decide
+     .got [.val 2 0, .none, .val 2 2] false, .got [.val 3 0, .exc 1 2 3] false] := by decide
 
 /-- a run that ends with a selected exception is replayed, exception included -/
-example : (Iter.run ⟨.withExc [], fun _ => 8⟩ (fun _ => ⟨[(.val, 0), (.exc 1, 7)], 0⟩) Iter.St.init [.iter 0, .iter 0]).2 =
-    [.got [.val 0 0, .exc 1 0] false, .got [.val 0 0, .exc 1 0] true] := by decide
+example : (Iter.run ⟨.withExc [], fun _ => 8⟩ (fun _ => ⟨[(.val, 0), (.exc 1 4, 7)], 0⟩) Iter.St.init [.iter 0, .iter 0]).2 =
+    [.got [.val 0 0, .exc 1 4 0] false, .got [.val 0 0, .exc 1 4 0] true] := by decide
+
+/-- the hypotheses of `iterator_replayed_exception_is_the_raised_one` are satisfiable: that replay holds the
+exception of class 1, payload 4 raised by run 0 at position 1 -/
+example : ∃ rs, (Iter.step ⟨.withExc [], fun _ => 8⟩ (fun _ => ⟨[(.val, 0), (.exc 1 4, 7)], 0⟩)
+      (afterI ⟨.withExc [], fun _ => 8⟩ (fun _ => ⟨[(.val, 0), (.exc 1 4, 7)], 0⟩) [.iter 0]) (.iter 0)).2 = .got rs true ∧
+    rs[1]? = some (.exc 1 4 0) := ⟨[.val 0 0, .exc 1 4 0], by decide, by decide⟩
 
 /-- … but not when it lasted exactly ttl (D18b / 5b10c85) -/
-example : (Iter.run ⟨.withExc [], fun _ => 8⟩ (fun _ => ⟨[(.val, 0), (.exc 1, 8)], 0⟩) Iter.St.init [.iter 0, .iter 0]).2 =
-    [.got [.val 0 0, .exc 1 0] false, .got [.val 1 0, .exc 1 1] false] := by decide
+example : (Iter.run ⟨.withExc [], fun _ => 8⟩ (fun _ => ⟨[(.val, 0), (.exc 1 4, 8)], 0⟩) Iter.St.init [.iter 0, .iter 0]).2 =
+    [.got [.val 0 0, .exc 1 4 0] false, .got [.val 1 0, .exc 1 4 1] false] := by decide
 
 end iterator
 
